@@ -156,6 +156,29 @@ fn run_history(run: &Run, idx: u64, seed: u64, cfg: &TreeCfg, long: bool, sc: &S
 		let gb: GenBlock = h.blocks[i].clone();
 		let res = chain.as_ref().unwrap().process_block(gb.block.clone(), opts);
 		out.deliveries += 1;
+		// one evaluation per delivery; shape = (class, placement tags, on best chain or fork, height band, outcome)
+		{
+			let on_fork = chain.as_ref().unwrap().head().map(|t| t.last_block_h != gb.parent).unwrap_or(false);
+			let mut tags = gb.tags.clone();
+			tags.sort();
+			tags.dedup();
+			run.eval(
+				&format!(
+					"delivery;class={};tags={:?};parent_is_head={};hband={};ins={};res={}",
+					gb.class,
+					tags,
+					!on_fork,
+					gb.block.header.height / 3,
+					gb.block.inputs().len().min(4),
+					match &res {
+						Ok(Some(_)) => "head",
+						Ok(None) => "fork",
+						Err(_) => "refused",
+					}
+				),
+				true,
+			);
+		}
 		let ctx = format!("class={}", gb.class);
 		match (&gb.verdict, &res) {
 			(Ok(()), Ok(_)) => {
@@ -468,8 +491,9 @@ fn main() {
 		 delivered parent-first in a random order, reopen with p=1/7, long histories (≥85 blocks) with Chain::compact. After \
 		 every delivery: accept/reject vs reference verdict, head vs reference winner, full unspent set (get_unspent over every \
 		 commitment ever created + unspent_outputs_by_pmmr_index), roots and sizes vs replay from genesis, validate_inputs probes. \
-		 A history is non-trivial if it had ≥1 reorg or ≥1 forged block; distinct by (fork heights, max height, class multiset, \
-		 placement tags, reorg count class).",
+		 One evaluation per block delivery (distinct by class, spend-placement tags, whether the parent is the current head, \
+		 height band, number of inputs, outcome) plus one per history (distinct by fork heights, max height, class multiset, \
+		 placement tags, reorg count class; non-trivial if it had ≥1 reorg or ≥1 forged block).",
 	);
 	run.assume("secp256k1-zkp and blake2b are trusted; SKIP_POW delivery (PoW and difficulty rules are C04's)");
 	let deliveries = AtomicU64::new(0);
